@@ -2118,12 +2118,11 @@ Section Examples.
     /\ map fst (w_blogs ex_w2) = map fst (w_refs ex_w2).
   Proof. vm_compute. repeat split; reflexivity. Qed.
 
+  Let ex_id (w : world) (n : bytes) : bytes :=
+    match am_get (w_refs w) n with Some id => hex id | None => [] end.
   Example ex_rev_parse :
     snd (fst (step (cmd_ (CRevParse [str "HEAD"; str "aa"; str "Head"])) ex_w2))
-    = match am_get (w_refs ex_w2) (str "aa") with
-      | Some id => OOk [hex id; hex id; hex id]
-      | None => OErr
-      end
+    = OOk (map (ex_id ex_w2) [str "a+"; str "aa"; str "a+"])
     /\ snd (fst (step (cmd_ (CRevParse [str "aa"; str "main"])) ex_w2)) = OErr.
   Proof. vm_compute. split; reflexivity. Qed.
 
